@@ -5,6 +5,8 @@ import Genq.Model.Ws
 import Genq.Proofs.WsInv
 import Genq.Proofs.WsData
 import Genq.Proofs.WsPrefix
+import Genq.Model.ClientSkel
+import Genq.Extracted.Client
 namespace Genq.Ws
 
 /-- **C14_nothing_after_end** — once a subscription has ended (server `complete` processed,
@@ -80,3 +82,11 @@ example : ((run Flags.fixed init [.subscribe, .step 0, .rstep, .server (.next 0 
     (fun s => (s.delivered, s.ended, s.closes)) = some ([1, 2], true, 1) := by decide
 
 end Genq.Ws
+
+namespace Genq
+
+/-- **C14_operation_template_tie** — the generated `<Op>ForwardData` (decode the payload, assert the channel's type,
+    send) as the template in /repo says (regenerated on every run) -/
+theorem C14_operation_template_tie : Extracted.operationTmpl = ClientSkel.operationTmpl := rfl
+
+end Genq
